@@ -99,6 +99,14 @@ func c10Build(p ref.Point, repr int, lambda *big.Int, aux ref.Point) *EdwardsPoi
 	panic("c10: bad repr")
 }
 
+func c10Enc(p *EdwardsPoint) []byte {
+	b, err := p.MarshalBinary()
+	if err != nil {
+		panic(err)
+	}
+	return b
+}
+
 type c10PtCase struct {
 	P, Q, Aux    h.PointSpec
 	Rel          string
@@ -234,6 +242,14 @@ func c10CheckPt(c c10PtCase) h.Result {
 	}
 	if got := p.IsTorsionFree(); got != c.P.IsTorsionFree() {
 		r.Fail("EdwardsPoint.IsTorsionFree:wrong", "%s got=%v want=%v", desc(), got, c.P.IsTorsionFree())
+	}
+
+	// the cofactor multiplication the small-order test is defined through
+	r.Eval(1)
+	var c8 EdwardsPoint
+	c8.MulByCofactor(p)
+	if got, w8 := c10Enc(&c8), ref.MulByCofactor(rp).Encode(); !bytes.Equal(got, w8) {
+		r.Fail("EdwardsPoint.MulByCofactor:wrong", "%s got=%x want=%x", desc(), got, w8)
 	}
 
 	// --- Edwards -> Montgomery: u = (1+y)/(1-y), identity -> 0
